@@ -150,18 +150,18 @@ def assign_confidences(frames, rng, distinct=True):
             i += 1
 
 
-def critical_cfg(manager, spec):
+def critical_cfg(manager, spec, targets=None):
     from perception_eval.evaluation.result.perception_frame_config import CriticalObjectFilterConfig
 
     kw = dict(spec)
-    return CriticalObjectFilterConfig(evaluator_config=manager.evaluator_config, target_labels=list(TARGETS), **kw)
+    return CriticalObjectFilterConfig(evaluator_config=manager.evaluator_config, target_labels=list(targets or TARGETS), **kw)
 
 
-def passfail_cfg(manager, thr):
+def passfail_cfg(manager, thr, targets=None):
     from perception_eval.evaluation.result.perception_frame_config import PerceptionPassFailConfig
 
-    return PerceptionPassFailConfig(evaluator_config=manager.evaluator_config, target_labels=list(TARGETS),
-                                    matching_threshold_list=[thr] * len(TARGETS))
+    return PerceptionPassFailConfig(evaluator_config=manager.evaluator_config, target_labels=list(targets or TARGETS),
+                                    matching_threshold_list=[thr] * len(targets or TARGETS))
 
 
 def num(x):
